@@ -780,26 +780,85 @@ Section Link.
     - destruct sd; try discriminate. cbn [sem1]. now apply GP.
   Qed.
 
+  (* matrix . vector and vector . matrix (Model/ConstructorsM.matvec / vecmat) *)
+  Lemma rows_dfd A : Forall (dfd S) (concat A) -> forall r, In r A -> Forall (dfd S) r.
+  Proof.
+    intros H r Hr. apply Forall_forall. intros x Hx. rewrite Forall_forall in H. apply H.
+    apply in_concat. exists r. split; assumption.
+  Qed.
+
+  Lemma agr_matvec v w A b : agr v (Mat A) -> agr w (Vec b) ->
+    agr (fun i _ => sn d (fun k => v i k * w k O)) (Vec (matvec A b)).
+  Proof.
+    intros Hv Hw. apply agr_mat in Hv. destruct Hv as ((LA & RA) & DA & Ev).
+    apply agr_vec in Hw. destruct Hw as (Lb & Db & Ew).
+    assert (RA' : forall i, (i < d)%nat -> length (nth i A []) = d).
+    { intros i Hi. rewrite Forall_forall in RA. apply RA. apply nth_In. lia. }
+    unfold matvec. apply agr_vec. split; [now rewrite map_length|]. split.
+    - apply Forall_forall. intros x Hx. apply in_map_iff in Hx. destruct Hx as [r [<- Hr]].
+      cbn [dot_v sc_of]. apply dfd_tsum. apply zipmul_dfd; [now apply (rows_dfd A DA)|exact Db].
+    - intros i j Hi.
+      rewrite (nth_indep _ tz (sc_of (dot_v [] b))) by (rewrite map_length; lia).
+      rewrite (map_nth (fun row => sc_of (dot_v row b)) A [] i). cbn [dot_v sc_of].
+      rewrite ev_tsum_nth, zipmul_length, (RA' i Hi), Lb, Nat.min_id. apply (sumn_ext S).
+      intros k Hk. rewrite zipmul_nth by (rewrite ?(RA' i Hi), ?Lb; exact Hk).
+      rewrite (Ev i k Hi Hk), (Ew k O Hk). reflexivity.
+  Qed.
+
+  Lemma agr_vecmat v w a B : agr v (Vec a) -> agr w (Mat B) ->
+    agr (fun i _ => sn d (fun k => v k O * w k i)) (Vec (vecmat a B)).
+  Proof.
+    intros Hv Hw. apply agr_vec in Hv. destruct Hv as (La & Da & Ev).
+    apply agr_mat in Hw. destruct Hw as ((LB & RB) & DB & Ew).
+    assert (RB' : forall i, (i < d)%nat -> length (nth i B []) = d).
+    { intros i Hi. rewrite Forall_forall in RB. apply RB. apply nth_In. lia. }
+    assert (Col : forall j k, (k < d)%nat -> nth k (map (fun row => nth j row (TZ 0)) B) tz = nth j (nth k B []) tz).
+    { intros j k Hk. rewrite (nth_indep _ tz (nth j [] (TZ 0))) by (rewrite map_length; lia).
+      rewrite (map_nth (fun row => nth j row (TZ 0)) B [] k). reflexivity. }
+    unfold vecmat. apply agr_vec. split; [now rewrite map_length, seq0_length|]. split.
+    - apply Forall_forall. intros x Hx. apply in_map_iff in Hx. destruct Hx as [j [<- Hj]].
+      cbn [dot_v sc_of]. apply dfd_tsum. apply zipmul_dfd; [exact Da|].
+      apply Forall_forall. intros y Hy. apply in_map_iff in Hy. destruct Hy as [r [<- Hr]].
+      apply nth_dfd. now apply (rows_dfd B DB).
+    - intros i j Hi. rewrite La.
+      rewrite (nth_indep _ tz (sc_of (dot_v a (map (fun row => nth 0 row (TZ 0)) B)))) by (rewrite map_length, seq0_length; lia).
+      rewrite (map_nth (fun j0 => sc_of (dot_v a (map (fun row => nth j0 row (TZ 0)) B))) (seq0 d) 0%nat i).
+      rewrite (seq0_nth d i Hi). cbn [dot_v sc_of].
+      rewrite ev_tsum_nth, zipmul_length, La, map_length, LB, Nat.min_id. apply (sumn_ext S).
+      intros k Hk. rewrite zipmul_nth by (rewrite ?La, ?map_length, ?LB; exact Hk).
+      rewrite (Col i k Hk). rewrite (Ev k O Hk), (Ew k i Hk Hi). reflexivity.
+  Qed.
+
   Lemma agr_den2 o m (v w : val) a b t :
     (forall ta, a = Some ta -> agr v ta) -> (forall tb, b = Some tb -> agr w tb) ->
-    (o = OInner -> m = match a with Some (Mat _) => true | _ => false end) ->
+    (o = OInner -> fst m = match a with Some (Mat _) => true | _ => false end) ->
+    (o = ODot -> m = (match a with Some (Mat _) => true | _ => false end,
+                      match b with Some (Mat _) => true | _ => false end)) ->
     den2 lg d o a b = Some t -> agr (sem2 S lg d o m v w) t.
   Proof.
-    intros GA GB Hm H.
+    intros GA GB Hm Hd H.
     destruct o; cbn [den2] in H; destruct a as [[x|l|A]|]; try discriminate; destruct b as [[y|l'|B]|]; try discriminate.
-    - destruct (Nat.eqb (length l) (length l')); [|discriminate]. inversion H; subst t. cbn [sem2]. eapply agr_dot; eauto.
+    - destruct (Nat.eqb (length l) (length l')); [|discriminate]. inversion H; subst t. rewrite (Hd eq_refl).
+      cbn [sem2 fst snd]. eapply agr_ext; [|eapply agr_dot; eauto]. intros i j. reflexivity.
+    - destruct (Nat.eqb (length B) (length l) && forallb (fun row => Nat.eqb (length row) (length l)) B); [|discriminate].
+      inversion H; subst t. rewrite (Hd eq_refl). cbn [sem2 fst snd].
+      eapply agr_ext; [|eapply agr_vecmat; eauto]. intros i j. reflexivity.
+    - destruct (forallb (fun row => Nat.eqb (length row) (length l')) A); [|discriminate].
+      inversion H; subst t. rewrite (Hd eq_refl). cbn [sem2 fst snd].
+      eapply agr_ext; [|eapply agr_matvec; eauto]. intros i j. reflexivity.
     - eapply agr_cross; eauto.
     - destruct (Nat.eqb (length l) (length l')); [|discriminate]. inversion H; subst t.
-      rewrite (Hm eq_refl). cbn [sem2]. eapply agr_dot; eauto.
-    - inversion H; subst t. rewrite (Hm eq_refl). cbn [sem2]. eapply agr_inner_m; eauto.
+      cbn [sem2]. rewrite (Hm eq_refl). eapply agr_dot; eauto.
+    - inversion H; subst t. cbn [sem2]. rewrite (Hm eq_refl). eapply agr_inner_m; eauto.
     - inversion H; subst t. cbn [sem2]. eapply agr_outer; eauto.
     - cbn [sem2]. eapply agr_convect; eauto.
     - destruct (Nat.eqb d 2); [|discriminate]. eapply agr_bracket_s; eauto.
   Qed.
 
-  (* Inner chooses between the dot product and the Frobenius product by the shape of its first argument:
-     [gsem] reads it off [gshape], [gden] off the tensor; they must agree (an executable side condition,
-     trivially true of expressions without Inner) *)
+  (* Inner chooses between the dot product and the Frobenius product by the shape of its first argument, Dot between
+     vector . vector, matrix . vector and vector . matrix by the shapes of both:
+     [gsem] reads them off [gshape], [gden] off the tensor; they must agree (an executable side condition,
+     trivially true of expressions without Inner / Dot) *)
   Definition mat_flag_ok (a : gexpr) : bool :=
     forallb (fun sd => Bool.eqb (is_mat d a) (match gden lg d sd a with Some (Mat _) => true | _ => false end))
             [SNone; SMinus; SPlus].
@@ -809,7 +868,8 @@ Section Link.
     | GPow b x => inner_ok b && inner_ok x
     | GFn _ a => inner_ok a
     | G1 _ a => inner_ok a
-    | G2 o a b => inner_ok a && inner_ok b && (match o with OInner => mat_flag_ok a | _ => true end)
+    | G2 o a b => inner_ok a && inner_ok b &&
+                  (match o with OInner => mat_flag_ok a | ODot => mat_flag_ok a && mat_flag_ok b | _ => true end)
     | _ => true
     end.
 
@@ -1014,10 +1074,13 @@ Section Link.
       assert (IHa : link_stmt a) by (apply IH; simpl in Hn; lia).
       assert (IHb : link_stmt b) by (apply IH; simpl in Hn; lia).
       cbn [gden] in H. cbn [gsem].
-      apply (agr_den2 o (is_mat_shape d a) (gsm sd a) (gsm sd b) (gden lg d sd a) (gden lg d sd b) t); [| | |exact H].
+      apply (agr_den2 o (is_mat_shape d a, is_mat_shape d b) (gsm sd a) (gsm sd b) (gden lg d sd a) (gden lg d sd b) t);
+        [| | | |exact H].
       + intros ta E. now apply IHa.
       + intros tb E. now apply IHb.
-      + intros ->. unfold is_mat_shape. apply mat_flag_side. exact If.
+      + intros ->. cbn [fst]. unfold is_mat_shape. apply mat_flag_side. exact If.
+      + intros ->. apply andb_true_iff in If. destruct If as [Fa Fb]. unfold is_mat_shape.
+        now rewrite (mat_flag_side a sd Fa), (mat_flag_side b sd Fb).
   Qed.
 
   Theorem gden_gsem : forall e, gdf S lg d e -> inner_ok e = true ->
